@@ -125,6 +125,18 @@ func c05Gen(g *core.Gen) {
 			g.Emit(&c05Case{Sizes: []int{2*s + 3, s, 5*s - 1}, Names: c05Names(3, s), Slice: s, Blocks: 3, G: gg, NoSSSE3: true})
 		}
 	}
+	// many slices x large slice sizes, one and two goroutines (working sets beyond cache sizes; any blocking of the
+	// single-goroutine path must not split 16-bit words): every slice count 60..130 at 4 KiB, 1..16 at 64 KiB
+	for n := 60; n <= 130; n++ {
+		for _, gg := range []int{1, 2} {
+			g.Emit(&c05Case{Sizes: []int{4096*n - 1}, Names: []string{"big"}, Slice: 4096, Blocks: 1, G: gg})
+		}
+	}
+	for n := 1; n <= 16; n++ {
+		for _, gg := range []int{1, 2} {
+			g.Emit(&c05Case{Sizes: []int{65536*n - 3}, Names: []string{"big"}, Slice: 65536, Blocks: 2, G: gg})
+		}
+	}
 	// content classes
 	for _, cl := range []string{"zero", "periodic", "dupslice", "trailzero"} {
 		g.Emit(&c05Case{Sizes: []int{13, 8, 21}, Names: c05Names(3, 1), Slice: 4, Blocks: 4, G: 2, Class: cl})
